@@ -1,6 +1,6 @@
-(** C12 (stretch): the walk of parseDeferredBlocks over the whole tree never panics and preserves R, for trees whose
-    pending deferred objects (Defer row, handle of the table being parsed) have no FieldList argument
-    (Buffer and While; the BankField row is the only Defer row with a FieldList). *)
+(** C12 (stretch): the walk of parseDeferredBlocks over the whole tree never panics and preserves R.  A pending BankField
+    (the only Defer row with a FieldList) inserts its NamedFields into the list the walk is iterating: they are new,
+    childless and not pending, so the walk steps over them. *)
 From Coq Require Import NArith Arith List Bool Lia.
 From Coq Require Import ZifyBool ZifyN ZifyNat.
 From FF Require Import Lib.Word Gen.Consts_device_acpi_aml Gen.Consts_aml_tree Aml.Stream Aml.Lex Aml.LexProofs
@@ -21,9 +21,10 @@ Definition isflag (s : pstate) (x : N) : bool :=
   | None => false
   end.
 
-(** [dcnt s g x n]: the walk from [x] meets [n] pending deferred objects (it does not descend below them), none with a FieldList *)
+(** [dcnt s g x n]: the walk from [x] meets [n] pending deferred objects (it does not descend below them); one with a
+    field list (BankField) has a parent *)
 Inductive dcnt (s : pstate) (g : ghost) : N -> N -> Prop :=
-| dc_flag x : glive g x -> isflag s x = true -> ~ hasfl s x -> dcnt s g x 1
+| dc_flag x : glive g x -> isflag s x = true -> (hasfl s x -> has_parent g x) -> dcnt s g x 1
 | dc_node x n : glive g x -> isflag s x = false -> dcl s g (kids g x) n -> dcnt s g x n
 with dcl (s : pstate) (g : ghost) : list N -> N -> Prop :=
 | dcl_nil : dcl s g [] 0
@@ -36,17 +37,81 @@ Combined Scheme dcnt_dcl_ind from dcnt_mut, dcl_mut.
 Lemma dcnt_live s g x n : dcnt s g x n -> glive g x.
 Proof. intros H. inversion H; auto. Qed.
 
+(** objects that cost the walk nothing: childless and not pending (the NamedFields a BankField block inserts next to it) *)
+Definition zero (s : pstate) (g : ghost) (x : N) : Prop := glive g x /\ kids g x = [] /\ isflag s x = false.
+
+Lemma zero_dcnt s g x : zero s g x -> dcnt s g x 0.
+Proof. intros (A & B & C). apply dc_node; auto. rewrite B. apply dcl_nil. Qed.
+
+Lemma nfrow_unflagged s x : nfrow s x -> isflag s x = false.
+Proof.
+  intros (o & Ho & Hrow). unfold isflag. rewrite Ho.
+  destruct (opcodeTableIndex aml_pOpIntNamedField true) as [k|] eqn:Ek; [|discriminate]. injection Hrow as Hrow. rewrite <- Hrow.
+  vm_compute in Ek. injection Ek as Ek. subst k.
+  match goal with |- match opInfo ?k with _ => _ end = _ => destruct (opInfo k) as [[[op fl] af]|] eqn:E; [|reflexivity] end.
+  vm_compute in E. injection E as _ Efl _.
+  assert (Hf : hasFlag fl aml_pOpFlagDeferParsing = false) by (subst fl; vm_compute; reflexivity).
+  rewrite Hf. reflexivity.
+Qed.
+
+(** a list with objects satisfying [Z] inserted *)
+Inductive ins (Z : N -> Prop) : list N -> list N -> Prop :=
+| ins_nil : ins Z [] []
+| ins_keep x l l' : ins Z l l' -> ins Z (x :: l) (x :: l')
+| ins_add x l l' : Z x -> ins Z l l' -> ins Z l (x :: l').
+
+Lemma ins_refl Z l : ins Z l l.
+Proof. induction l; constructor; auto. Qed.
+
+Lemma ins_mono (Z Z' : N -> Prop) l l' : (forall x, Z x -> Z' x) -> ins Z l l' -> ins Z' l l'.
+Proof. intros H I. induction I; constructor; auto. Qed.
+
+Lemma ins_trans Z l1 l2 l3 : ins Z l1 l2 -> ins Z l2 l3 -> ins Z l1 l3.
+Proof.
+  intros H12 H23. revert l1 H12. induction H23 as [|x l2 l3 H IH|x l2 l3 Hz H IH]; intros l1 H12.
+  - exact H12.
+  - inversion H12 as [|y k k' Hk|y k k' Hy Hk]; subst.
+    + apply ins_keep. apply IH. exact Hk.
+    + apply ins_add; [exact Hy|]. apply IH. exact Hk.
+  - apply ins_add; [exact Hz|]. apply IH. exact H12.
+Qed.
+
+Lemma ins_split Z l l' : ins Z l l' -> forall l1 c l2, l = l1 ++ c :: l2 -> exists l1' l2', l' = l1' ++ c :: l2' /\ ins Z l2 l2'.
+Proof.
+  induction 1 as [|x l l' H IH|x l l' Hz H IH]; intros l1 c l2 E.
+  - destruct l1; discriminate.
+  - destruct l1 as [|y l1]; cbn [app] in E; injection E as E1 E2.
+    + subst. exists [], l'. split; [reflexivity|exact H].
+    + subst. destruct (IH l1 c l2 eq_refl) as (a & b & Ea & Hb). exists (y :: a), b. split; [rewrite Ea; reflexivity|exact Hb].
+  - destruct (IH l1 c l2 E) as (a & b & Ea & Hb). exists (x :: a), b. split; [rewrite Ea; reflexivity|exact Hb].
+Qed.
+
+Lemma ins_front Z new l : Forall Z new -> ins Z l (new ++ l).
+Proof. intros H. induction H; cbn [app]; [apply ins_refl|apply ins_add; auto]. Qed.
+
+Lemma ins_insert Z l1 c new tl : Forall Z new -> ins Z (l1 ++ c :: tl) (l1 ++ c :: new ++ tl).
+Proof. intros H. induction l1; cbn [app]; apply ins_keep; [apply ins_front; exact H|exact IHl1]. Qed.
+
+Lemma dcl_ins s g l l' : ins (zero s g) l l' -> forall n, dcl s g l n -> dcl s g l' n.
+Proof.
+  induction 1 as [|x l l' H IH|x l l' Hz H IH]; intros n Hd.
+  - exact Hd.
+  - inversion Hd as [|c k n1 m Hc Hr]; subst. apply dcl_cons; [exact Hc|apply IH; exact Hr].
+  - change n with (0 + n). apply dcl_cons; [apply zero_dcnt; exact Hz|apply IH; exact Hd].
+Qed.
+
 (** what one step of the walk does to the rest of the tree *)
 Record wstep (s : pstate) (g : ghost) (s' : pstate) (g' : ghost) : Prop := mkWstep {
   ws_g : gext g g';
   ws_keep : keep (fun _ => True) s g s';
   ws_h : p_handle s' = p_handle s;
   ws_len : r_len (p_r s') = r_len (p_r s);
-  ws_kids : forall y, glive g y -> isflag s y = false -> kids g' y = kids g y
+  ws_nil : forall y, glive g y -> isflag s y = false -> kids g y = [] -> kids g' y = [];
+  ws_kids : forall y, glive g y -> isflag s y = false -> ins (zero s' g') (kids g y) (kids g' y)
 }.
 
 Lemma wstep_refl s g : wstep s g s g.
-Proof. constructor; auto. apply gext_refl. apply keep_refl. Qed.
+Proof. constructor; auto. apply gext_refl. apply keep_refl. intros. apply ins_refl. Qed.
 
 Lemma isflag_keep P s g s' y : WI s g -> keep P s g s' -> p_handle s' = p_handle s -> glive g y -> isflag s' y = isflag s y.
 Proof.
@@ -62,29 +127,38 @@ Proof.
   exists o, op, fl, af. rewrite <- E2. auto.
 Qed.
 
-Lemma wstep_trans s g s1 g1 s2 g2 : WI s g -> wstep s g s1 g1 -> wstep s1 g1 s2 g2 -> wstep s g s2 g2.
+Lemma zero_step s g s' g' x : WI s g -> wstep s g s' g' -> zero s g x -> zero s' g' x.
 Proof.
-  intros H [A1 B1 C1 D1 E1] [A2 B2 C2 D2 E2]. constructor.
+  intros H [A B C D E F] (Hl & Hk & Hf). split; [apply (ge_live _ _ A); exact Hl|]. split; [apply E; auto|].
+  rewrite (isflag_keep _ _ _ _ _ H B C Hl). exact Hf.
+Qed.
+
+Lemma wstep_trans s g s1 g1 s2 g2 : WI s g -> WI s1 g1 -> wstep s g s1 g1 -> wstep s1 g1 s2 g2 -> wstep s g s2 g2.
+Proof.
+  intros H H1 S1 S2. pose proof S1 as [A1 B1 C1 D1 E1 F1]. pose proof S2 as [A2 B2 C2 D2 E2 F2]. constructor.
   - eapply gext_trans; eauto.
   - eapply keep_trans; eauto. apply (ge_live _ _ A1).
   - congruence.
   - congruence.
-  - intros y Hy Hf. rewrite E2; [apply E1; auto|apply (ge_live _ _ A1); exact Hy|].
+  - intros y Hy Hf Hk. apply E2; [apply (ge_live _ _ A1); exact Hy| |apply E1; auto].
     rewrite (isflag_keep _ _ _ _ _ H B1 C1 Hy). exact Hf.
+  - intros y Hy Hf. eapply ins_trans.
+    + eapply ins_mono; [|apply (F1 y Hy Hf)]. intros x Hx. eapply zero_step; eauto.
+    + apply F2; [apply (ge_live _ _ A1); exact Hy|]. rewrite (isflag_keep _ _ _ _ _ H B1 C1 Hy). exact Hf.
 Qed.
 
 Lemma dcnt_step s g s' g' : WI s g -> wstep s g s' g' ->
   (forall x n, dcnt s g x n -> dcnt s' g' x n) /\ (forall l n, dcl s g l n -> dcl s' g' l n).
 Proof.
-  intros H [A B C D E]. apply dcnt_dcl_ind.
+  intros H [A B C D E F]. apply dcnt_dcl_ind.
   - intros x Hx Hf Hn. apply dc_flag.
     + apply (ge_live _ _ A). exact Hx.
     + rewrite (isflag_keep _ _ _ _ _ H B C Hx). exact Hf.
-    + intros F. apply Hn. eapply hasfl_keep; eauto.
+    + intros Hfl. eapply has_parent_ext; [exact A|]. apply Hn. eapply hasfl_keep; eauto.
   - intros x n Hx Hf _ IH. apply dc_node.
     + apply (ge_live _ _ A). exact Hx.
     + rewrite (isflag_keep _ _ _ _ _ H B C Hx). exact Hf.
-    + rewrite (E x Hx Hf). exact IH.
+    + eapply dcl_ins; [apply (F x Hx Hf)|exact IH].
   - apply dcl_nil.
   - intros c l n m _ IH1 _ IH2. apply dcl_cons; auto.
 Qed.
@@ -144,18 +218,25 @@ Proof.
     assert (HB : wp True (block_body pf x oo) s (fun res s' => exists g',
       WI s' g' /\ gext g g' /\ r_len (p_r s') = r_len (p_r s) /\
       lp s' <= lp s + Cblock s /\ keep (eq x) s g s' /\ (res = ROk -> TM NoX s' g') /\
-      (~ hasfl s x -> forall y, glive g y -> y <> x -> kids g' y = kids g y))).
+      Fk (eq x) (fun y => hasfl s x /\ In x (kids g y)) g g' /\ finsert s' g g' x)).
     { apply (block_spec tbls pf x oo s g H I0 H0 Hl Hoo).
       - exists oo, op, fl, af. auto.
-      - intros F. contradiction.
+      - exact Hn.
       - exact HTM.
       - unfold capW, Cblock in *. lia. }
     eapply wp_weaken; [apply (wp_and_pc _ _ _ _ (fun _ s' => p_handle s' = p_handle s) HB)|auto|].
     + intros a s' E. apply (block_body_hsame pf x oo s a s' E).
-    + intros res s' ((g' & W' & G & L & P & K & T & F) & Hh). exists g'. split; [exact W'|]. split.
+    + intros res s' ((g' & W' & G & L & P & K & T & F & Fi) & Hh). exists g'. split; [exact W'|]. split.
       * constructor; auto.
         -- intros i o Hi Ho. destruct (K i o Hi Ho) as (o' & Ho' & E' & _). exists o'. split; [exact Ho'|]. split; [exact E'|]. intros F'. exfalso. apply F'. exact I.
-        -- intros y Hy Hfy. apply (F Hn y Hy). intros ->. congruence.
+        -- intros y Hy Hfy Hky. destruct (F y Hy) as (_ & Hex); [intros (_ & Hin); rewrite Hky in Hin; exact Hin|].
+           rewrite Hex; [exact Hky|]. intros <-. congruence.
+        -- intros y Hy Hfy. destruct (in_dec N.eq_dec x (kids g y)) as [Hin|Hnin].
+           ++ destruct (in_split _ _ Hin) as (l1 & tl & Ek). destruct (Fi y l1 tl Ek) as (new & En & Hs). rewrite Ek, En.
+              apply ins_insert. unfold sibs in Hs. rewrite Forall_forall in *. intros z Hz. destruct (Hs z Hz) as (_ & Z1 & Z2 & Z3).
+              split; [exact Z1|]. split; [exact Z2|apply nfrow_unflagged; exact Z3].
+           ++ destruct (F y Hy) as (_ & Hex); [intros (_ & Hin); contradiction|].
+              rewrite Hex; [apply ins_refl|]. intros <-. congruence.
       * split; [lia|exact T].
   - inversion Hd as [x' Hx Hf Hn|x' n' Hx Hf Hk]; subst; [congruence|].
     rewrite (WI_first _ _ _ _ H Hoo Hlo).
@@ -183,19 +264,18 @@ Proof.
       assert (res = ROk) by (destruct res; try discriminate; reflexivity). subst res.
       pose proof (ge_live _ _ (ws_g _ _ _ _ S1)) as Hlv.
       apply wp_bind. apply wp_objectAt'; [apply (FI_ObjectAt _ _ _ H1 (Hlv _ Hlc))|].
-      assert (Hk1 : kids g1 par = (l1 ++ [c]) ++ l2).
-      { rewrite (ws_kids _ _ _ _ S1 par Hp Hfp), Hk, <- app_assoc. reflexivity. }
-      destruct (WI_next s1 g1 par l1 c l2 H1 (Hlv _ Hp)) as (co1 & Hco1 & Hnx).
-      { rewrite Hk1, <- app_assoc. reflexivity. }
+      assert (Hfp1 : isflag s1 par = false).
+      { rewrite (isflag_keep _ _ _ _ _ H (ws_keep _ _ _ _ S1) (ws_h _ _ _ _ S1) Hp). exact Hfp. }
+      destruct (ins_split _ _ _ (ws_kids _ _ _ _ S1 par Hp Hfp) l1 c l2 Hk) as (l1' & l2' & Hk1 & Hins).
+      destruct (WI_next s1 g1 par l1' c l2' H1 (Hlv _ Hp) Hk1) as (co1 & Hco1 & Hnx).
       apply wp_bind. apply wp_rdf. exists co1. split; [exact Hco1|]. rewrite Hnx.
       destruct (dcnt_step _ _ _ _ H S1) as (_ & Hstep).
-      eapply wp_weaken; [apply (HL pf par (l1 ++ [c]) l2 m s1 g1 H1 I1 (Hlv _ H0) (T1 eq_refl) (Hlv _ Hp))|auto|].
-      * rewrite (isflag_keep _ _ _ _ _ H (ws_keep _ _ _ _ S1) (ws_h _ _ _ _ S1) Hp). exact Hfp.
-      * exact Hk1.
-      * apply Hstep. exact Hr.
+      eapply wp_weaken; [apply (HL pf par (l1' ++ [c]) l2' m s1 g1 H1 I1 (Hlv _ H0) (T1 eq_refl) (Hlv _ Hp) Hfp1)|auto|].
+      * rewrite Hk1, <- app_assoc. reflexivity.
+      * eapply dcl_ins; [exact Hins|]. apply Hstep. exact Hr.
       * unfold capW in *. rewrite El. nia.
       * intros res2 s2 (g2 & H2 & S2 & L2 & T2). exists g2. split; [exact H2|].
-        split; [eapply wstep_trans; eauto|]. split; [rewrite El in L2; nia|exact T2].
+        split; [eapply (wstep_trans s g s1 g1 s2 g2); eauto|]. split; [rewrite El in L2; nia|exact T2].
 Qed.
 
 Lemma DWL_all : forall fuel, DW fuel /\ DL fuel.
